@@ -56,6 +56,15 @@ def monitor(case, o):
     if marks != sorted(marks) or len(set(marks)) != len(marks):
         out.append(("C10_fifo_within_priority: normal-priority run() calls executed out of send order or twice", marks))
     ops = case["ops"]
+    # a control sent after a run_async() does not run before that hook's future has completed
+    mtime = {int(a[0]): t for t, ev, a in evs if ev == "mark"}
+    for k, op in enumerate(ops):
+        if op["op"] == "run_async" and op.get("dur", 0) > 0 and op["mark"] in mtime:
+            done = mtime[op["mark"]] + op["dur"]
+            for later in ops[k + 1:]:
+                if later["op"] == "run" and later["mark"] in mtime and mtime[later["mark"]] < done:
+                    out.append(("C10_fifo_within_priority: a control sent after run_async() ran before that hook had finished",
+                                f"run_async mark {op['mark']} busy until {done}, run mark {later['mark']} at {mtime[later['mark']]}"))
     if not any(op["op"] == "run_async" for op in ops):
         for k, op in enumerate(ops):
             if op["op"] != "delete_now":
